@@ -6,7 +6,7 @@ for id in "$@"; do
   prop=${id%%-*}
   git -C $WT checkout -q -- . ; git -C $WT apply /verif/seeded/$id/patch.diff || { echo "$id: patch does not apply"; continue; }
   out=/verif/seeded/$id/check_output.txt
-  ( cd /verif && VT_REPO=$WT VT_NS=mut VT_MEM_GB=${VT_MEM_GB:-14} timeout 7200 ./vt check $prop -j ${JOBS:-4} ) > $out 2>&1
+  ( cd /verif && VT_REPO=$WT VT_NS=${MUT_NS:-mut} VT_MEM_GB=${VT_MEM_GB:-14} timeout 7200 ./vt check $prop -j ${JOBS:-4} ) > $out 2>&1
   rc=$?
   echo "exit=$rc" >> $out
   echo "$id exit=$rc $(grep -c '^VIOLATION' $out) violation line(s): $(grep -A1 '^VIOLATION' $out | grep harness= | sed 's/.*harness=//' | cut -c1-120 | tr '\n' ';')"
